@@ -1,4 +1,5 @@
 import BevySyncModel.Proofs.Comp
+import BevySyncModel.Proofs.Mark
 import BevySyncModel.Generated.Sync
 /-! # C02 — component values converge to the most recent write on every peer
 
@@ -17,6 +18,32 @@ the replicated value (D8 repaired).  The theorems below are about exactly that c
 theorem C02_code_paths_tie :
     Generated.applySkipsOnToken = false ∧ Generated.applyIsPatch = false ∧ Generated.fixReinsertsValue = false := by
   decide
+
+/-- (tie) `sync_detect<T>` and `sync_skinned_mesh` also fire for an entity that has just become a
+`SyncEntity` (`Or<(Changed<T>, Added<SyncEntity>)>`, D2 repaired) -/
+theorem C02_detect_filter_tie : Generated.detectSeesNewSyncEntity = true := by decide
+
+/-- **values the entity already carried when it was marked.** On the marking peer the value is handed to the
+replication queue exactly once — whichever side of the frame's sync point `sync_detect<T>` happens to be
+ordered on in this run of the application — and never again while nobody writes; from there on it is an
+ordinary write of the component slice (`writeH` / `writeC` followed by `detect`). -/
+theorem C02_initial_value_announced_once (before : Bool) (n : Nat) (hn : 2 ≤ n) :
+    (Mark.run false before {} n).announced = 1 :=
+  Mark.announced_once before n hn
+
+/-- … also when the entity was marked any number of frames before the peer connected -/
+theorem C02_initial_value_announced_once_after_idle (before : Bool) (k n : Nat) (hn : 2 ≤ n) :
+    (Mark.run false before (Mark.idle false {} k) n).announced = 1 :=
+  Mark.announced_once_after_idle before k n hn
+
+theorem C02_write_after_mark_announced (before : Bool) (a : Nat) :
+    (Mark.frame false before (Mark.write { created := true, synced := true, changedT := false, addedS := false, announced := a })).announced = a + 1 :=
+  Mark.write_announced before a
+
+/-- D2 stays machine-checked: with the pre-repair filter (`Changed<T>` only) and `sync_detect<T>` ordered ahead
+of the sync point, the value carried at mark time is never announced, however long the session runs -/
+theorem C02_legacy_filter_misses_initial_value (n : Nat) : (Mark.run true true {} n).announced = 0 :=
+  Mark.legacy_never n
 
 variable {V : Type} [DecidableEq V] {ra : Bool}
 
